@@ -47,13 +47,13 @@ AUDIT = [(h, ['ntm', 'cpo', 'i64', 'm64', 'ntm.1', 'ntm.2', 'ntm.3', 'ntm.5'], [
     ('segx', ['ntm'], [9], [5, 33, 70]), ('segc2', ['ntm', 'cpo'], [9], [5, 12, 33]), ('segs0', ['ntm'], [9, 40], [5, 33, 70]),
     ('tmulti', ['ntm'], [9, 40], [5, 33, 70]), ('taud', ['ntm', 'cpo'], [9, 40], [5, 33, 70]), ('taud5', ['ntm'], [40], [12, 70]), ('ttriv', ['ntm'], [40], [12, 70]),
     ('hmmbig', ['ntm', 'cpo'], [9], [5, 33]), ('palloc', ['ntm'], [9, 40], [5, 33, 70]), ('palloc1', ['ntm'], [9], [5, 33]), ('poolg', ['ntm'], [9], [5, 33]),
-    ('dt2', ['ntm'], [9], [5, 33]), ('stdmore', ['ntm'], [9], [5, 33])]
+    ('dt2', ['ntm'], [9], [5, 33]), ('dt3', ['ntm'], [4], [3, 12]), ('stdmore', ['ntm'], [9], [5, 33])]
 AUDIT_NAMES = tuple(a[0] for a in AUDIT)
 for _h in HB:
     PART[_h] = 4
 for _n in ('inlhs', 'inlts', 'hmminl', 'arrx', 'arrb', 'arrt', 'arrs', 'segx', 'segc2', 'segs0', 'tmulti', 'taud', 'taud5', 'ttriv', 'hmmbig', 'palloc', 'palloc1', 'poolg'):
     PART[_n] = 5
-for _n in ('dt2', 'stdmore'):
+for _n in ('dt2', 'dt3', 'stdmore'):
     PART[_n] = 6
 # fault SEQUENCES: kinds A / C / F = the k-th step of that kind fails and, once that failure has been caught, the 2nd next step of the same kind fails too
 DOUBLE_QUICK = ('arr', 'seg', 'hset', 'hseto', 'tset', 'hmm', 'dt', 'tmergeb', 'sset', 'taud', 'hbO8', 'segc2')
@@ -412,7 +412,11 @@ def _tree_hash(ctx):
 def build_all(ctx):
     """builds the 4 harness binaries in parallel; a binary is reused only when the content hash of all its inputs (headers of the
     tree under test included) is unchanged, so a changed /repo always means a fresh build"""
-    jobs = [('harness.cpp', 'harness', ['-DC03_TIE_PART=1']), ('harness.cpp', 'harness2', ['-DC03_TIE_PART=2'])] + [('harness_hist.cpp', 'hist%d' % i, ['-DC03_PART=%d' % i] + (['-O0'] if i >= 4 else [])) for i in (1, 2, 3, 4, 5, 6)]
+    # quick tier: -O0 -g0 everywhere (compile CPU 183 s -> 112 s; the run time of all harness binaries together is below 3 s either way);
+    # thorough tier: -O1 -g + ASan / UBSan (parts 4-6 -O0: template-heavy)
+    fast = ['-O0', '-g0'] if ctx.tier != 'thorough' else []
+    jobs = [('harness.cpp', 'harness', ['-DC03_TIE_PART=1'] + fast), ('harness.cpp', 'harness2', ['-DC03_TIE_PART=2'] + fast)] + \
+           [('harness_hist.cpp', 'hist%d' % i, ['-DC03_PART=%d' % i] + (fast or (['-O0'] if i >= 4 else []))) for i in (1, 2, 3, 4, 5, 6)]
     san = '.san' if ctx.tier == 'thorough' else ''
     key = _tree_hash(ctx) + san
     stamp = os.path.join(ctx.build, 'harness.stamp' + san)
@@ -438,7 +442,7 @@ def replay(ctx, rp):
     harness, exes = build_all(ctx)
     if case.split()[0] in ('dt', 'hmm', 'dtc'):
         harness = exes.get('tie2')
-    gen_facts(ctx); ctx.regen(['gen_mempooldata.json'])
+    gen_facts(ctx); ctx.regen(GEN_CFGS)
     have_model = ctx.prove() and ctx.extract()
     if case.split()[0] in ('om', 'arr', 'hs', 'ts', 'crew', 'pools', 'tsn', 'hsf', 'sa', 'sa2', 'grow', 'growa', 'pc', 'migv', 'dtc', 'rel', 'dt', 'hmm'):
         if harness is None or not have_model:
@@ -461,6 +465,9 @@ def replay(ctx, rp):
     if why:
         print(why); print('VIOLATION property=C03 replay=%s' % ctx.replay); return 1
     print('property holds on this case'); return 0
+
+
+GEN_CFGS = ['gen_mempooldata.json', 'gen_raw.json', 'gen_hashclear.json', 'gen_treeclear.json', 'gen_poolmerge.json']
 
 
 def gen_facts(ctx):
@@ -501,7 +508,7 @@ def run(ctx):
                         '"no memory is read or written outside live blocks" is a runtime check (ASan, red zones) - partial',
                         'whole-container statement (all operations, all histories) is checked by the proved monitor on generated histories, not proved']
     ok_facts = gen_facts(ctx)
-    ok_gen = ctx.regen(['gen_mempooldata.json'])       # MemPool::Data::Swap translated by tools/cxx2coq.py (config copied from C14)
+    ok_gen = ctx.regen(GEN_CFGS)       # translated by tools/cxx2coq.py; configurations copied from C14 / C18 / C09 (see NOTES.md)
     if not ok_facts:
         ctx.stage('regen', False, 'AST facts (see tie obligations)')
     ctx.prove()
